@@ -204,28 +204,41 @@ Definition oenc := (Z * Z * Z)%type.
 Definition within (e : oenc) (obs : Z) : bool :=
   let '(P, flo, fhi) := e in ((obs - P - flo) mod two32 <=? fhi - flo).
 
+(* Float rounding: the Go code's float64 transient part is meant to stay inside
+   the interval.  Whenever the carried part is a point interval (lo = hi: the
+   value is an integer below 2^53, which float64 also holds exactly) nothing is
+   widened and the branch tests are exact; otherwise the interval is widened by
+   a relative 2^-40 per operation and the tests `transient < 1`,
+   `transient > 1` take both branches within 2^-20 of 1. *)
+Definition tol (s : istate) : Z := if ilo s =? ihi s then 0 else EPS.
+
 Definition iscore (s : istate) (now : Z) : oenc :=
   let dt := now - ilast s in
   if (dt <? 0) || (lifetime <? dt) then (ipers s, 0, 0)
   else
-    let flo := if SC + EPS <=? ilo s then infl_dn (mul_dn (ilo s) (dlo dt)) / SC else 0 in
-    let fhi := if ihi s <? SC - EPS then 0 else infl_up (mul_up (ihi s) (dhi dt)) / SC in
+    let eps := tol s in
+    let plo := if dt =? 0 then ilo s else infl_dn (mul_dn (ilo s) (dlo dt)) in
+    let phi := if dt =? 0 then ihi s else infl_up (mul_up (ihi s) (dhi dt)) in
+    let flo := if SC + eps <=? ilo s then plo / SC else 0 in
+    let fhi := if ihi s <? SC - eps then 0 else phi / SC in
     (ipers s, flo, fhi).
 
 Definition iincrease (s : istate) (p t now : Z) : istate * oenc :=
   let P := wrap (ipers s + p) in
   let dt := now - ilast s in
+  let eps := tol s in
   let s' :=
     if 0 <? t then
       let lo0 := if lifetime <? dt then 0
                  else if 0 <? dt then
-                   (if ihi s <? SC - EPS then ilo s else mul_dn (ilo s) (dlo dt))
+                   (if ihi s <=? SC - eps then ilo s else mul_dn (ilo s) (dlo dt))
                  else ilo s in
       let hi0 := if lifetime <? dt then 0
                  else if 0 <? dt then
-                   (if SC + EPS <? ilo s then mul_up (ihi s) (dhi dt) else ihi s)
+                   (if SC + eps <? ilo s then mul_up (ihi s) (dhi dt) else ihi s)
                  else ihi s in
-      imk P (infl_dn (lo0 + t * SC)) (infl_up (hi0 + t * SC)) now
+      if lo0 =? hi0 then imk P (lo0 + t * SC) (hi0 + t * SC) now
+      else imk P (infl_dn (lo0 + t * SC)) (infl_up (hi0 + t * SC)) now
     else imk P (ilo s) (ihi s) (ilast s) in
   (s', (P, ilo s' / SC, ihi s' / SC)).
 
